@@ -142,14 +142,16 @@ func classifyWrong(got, want [][]byte, others map[string][][]byte) string {
 			}
 		}
 		if len(got[i]) == len(want[i]) {
-			// partly zeroed: eviction wiped it while it was being copied/decrypted
-			z := 0
-			for _, c := range got[i] {
-				if c == 0 {
-					z++
+			// partly zeroed: every byte that differs from the expected key is a zero byte (the eviction callback was
+			// wiping the slice while it was being copied)
+			onlyZeroed := true
+			for j, c := range got[i] {
+				if c != want[i][j] && c != 0 {
+					onlyZeroed = false
+					break
 				}
 			}
-			if z > len(got[i])/4 {
+			if onlyZeroed {
 				return "partly zeroed key"
 			}
 		}
